@@ -586,5 +586,66 @@ def u_push_after_results(root):
     return eng
 
 
+def u_init_nexus_order(root):
+    """MultiFit._init_nexus: fits that use the same parameter name use ONE parameter node - the node of the last fit that declares the name is installed in EVERY fit using it,
+    and only after that does any member build its fitter (a fitter built earlier would keep writing to the member's own, orphaned node).  Instance unit over recording members."""
+    from . import c03
+    Part, Val, Fn, RecNexus, log = c03.Part, c03.Val, c03.Fn, c03.RecNexus, c03.log
+    eng = engine(root, ["kafe2/fit/multi/fit.py", "kafe2/fit/_base/fit.py"], {"MultiFit": {"_fits": PYOBJ, "_nexus": PYOBJ, "_combined_parameter_node_dict": PYOBJ, "_cost_function": PYOBJ}}, [])
+    eng.consts = {"np": VLib("np"), "OrderedDict": VLib("dict")}
+    mk(eng, "FitBase", "_init_nexus", result=lambda vw: (vw.eng.write_field(vw.post, vw.self, "_nexus", RecNexus()), VNone())[1])
+    mk(eng, "FitBase", "_initialize_fitter", result=lambda vw: (log(vw.post, "multi_fitter_built"), VNone())[1])
+    mk(eng, "MultiFit", "_initialize_fitter", result=lambda vw: (log(vw.post, "multi_fitter_built"), VNone())[1])
+    eng.consts["Alias"] = Fn(lambda e, st, a, kw: Val("Alias:" + kw["name"].s))
+    eng.consts["Array"] = Fn(lambda e, st, a, kw: Val("Array:" + kw["name"].s))
+    eng.comp_models = {"['cost%s' % _i for _i in range(len(self._fits))]": lambda e, st, n: VTuple([VStr("cost%d" % q_) for q_ in range(len(e.read_field(st, st.locals["self"], "_fits").items))])}
+    eng.consts["MultiCostFunction"] = Fn(lambda e, st, a, kw: Part("multi_cost", {"name": VStr("cost_sum"), "arg_names": VTuple([VStr("cost0"), VStr("cost1")])}))
+
+    class MemberNexus(V):
+        def __init__(self, who):
+            self.who = who
+
+        def vattr(self, e, st, attr):
+            if attr == "get":
+                def get(e_, st_, a, kw):
+                    nm = a[0].s
+                    if nm in ("x_data", "y_data", "total_cov_mat_log_determinant", "cost"):
+                        return Val(f"{self.who}.node:{nm}")
+                    return Part(f"{self.who}.par:{nm}", {"name": VStr(nm)})
+                return Fn(get)
+            if attr == "add":
+                return Fn(lambda e_, st_, a, kw: (log(st_, "member_add", self.who, kw.get("node", a[0] if a else None), kw.get("existing_behavior")), VNone())[1])
+
+    layouts = {"ab|ca": (("a", "b"), ("c", "a")), "ab|bd|a": (("a", "b"), ("b", "d"), ("a",))}
+    for lname, layout in layouts.items():
+        c = Contract("MultiFit", "_init_nexus")
+
+        def post(vw, layout=layout):
+            if vw.flow == "raise":
+                return [("no exception", z3.BoolVal(False))]
+            tr = list(vw.post.ghost.get("fx", ()))
+            built = {x[1]: q_ for q_, x in enumerate(tr) if x[0] == "call" and x[2] == "_initialize_fitter"}
+            installs = [(q_, x[1], getattr(x[2], "name", "?"), x[3]) for q_, x in enumerate(tr) if x[0] == "member_add"]
+            owner = {}
+            for k_, names in enumerate(layout):
+                for n_ in names:
+                    owner[n_] = "member%d" % k_          # the node of the LAST fit declaring the name is the shared one
+            want = {("member%d" % k_, n_): f"{owner[n_]}.par:{n_}" for k_, names in enumerate(layout) for n_ in names}
+            got = {(who, node.split(".par:")[1]): node for _, who, node, beh in installs if isinstance(beh, VStr) and beh.s == "replace"}
+            last_install = max([q_ for q_, *_ in installs], default=-1)
+            return [("EVERY fit that uses a parameter name gets the one shared node of that name installed (replacing its own)", z3.BoolVal(got == want)),
+                    ("every member builds its fitter, and only AFTER all shared nodes are installed", z3.BoolVal(set(built) == {"member%d" % k_ for k_ in range(len(layout))} and all(q_ > last_install for q_ in built.values()))),
+                    ("the multi-fit builds its own fitter last", z3.BoolVal(bool(tr) and tr[-1][0] == "multi_fitter_built"))]
+        c.ensures.append(post)
+
+        def init(e, st, me_, layout=layout):
+            members = [Part("member%d" % k_, {"parameter_names": VTuple([VStr(n_) for n_ in names]), "_nexus": MemberNexus("member%d" % k_), "_cost_function": Val("member%d.cost_function" % k_),
+                                               "_initialize_fitter": Fn(lambda e_, st_, a, kw: VNone())}) for k_, names in enumerate(layout)]
+            e.write_field(st, me_, "_fits", VTuple(members))
+            return {}
+        eng.verify("MultiFit", "_init_nexus", None, init, contract=c, tag=f"[members {lname}]")
+    return eng
+
+
 def units(root):
-    return [Unit("MultiCostFunction.cost_sum / __call__", u_cost_sum), Unit("MultiCostFunction.__init__", u_multi_cost_init), Unit("_combine_1d_property", u_combine_1d), Unit("_combine_cov_mats", u_combine_cov), Unit("_init_shared_error_nodes block edges", u_data_indices), Unit("lemma edges_monotone", u_lemmas), Unit("_get_parameter_indices", u_param_indices), Unit("_update_singular_fits", u_update_singular), Unit("fix_parameter / release_parameter", u_fix_release), Unit("total_cov_mat closures", u_total_cov), Unit("MultiFit.total_cov_mat", u_total_cov_getter), Unit("do_fit / asymmetric_parameter_errors push results", u_push_after_results)]
+    return [Unit("MultiCostFunction.cost_sum / __call__", u_cost_sum), Unit("MultiCostFunction.__init__", u_multi_cost_init), Unit("_combine_1d_property", u_combine_1d), Unit("_combine_cov_mats", u_combine_cov), Unit("_init_shared_error_nodes block edges", u_data_indices), Unit("lemma edges_monotone", u_lemmas), Unit("_get_parameter_indices", u_param_indices), Unit("_update_singular_fits", u_update_singular), Unit("fix_parameter / release_parameter", u_fix_release), Unit("total_cov_mat closures", u_total_cov), Unit("MultiFit.total_cov_mat", u_total_cov_getter), Unit("do_fit / asymmetric_parameter_errors push results", u_push_after_results), Unit("MultiFit._init_nexus: one node per shared parameter name, installed before any member fitter is built", u_init_nexus_order, bounded="two layouts of 2 / 3 recording member fits")]
